@@ -165,6 +165,10 @@ def main(run):
     run.extra["isel_tables"] = isel.gen_tables()
     ok = run.proof("Props/C01.v", extra_targets=["Core/Typing.vo"])
     progs, feats = gen_programs(run, n, 30 if quick else 60, 3 if quick else 5, False)
+    for _ in range(2 if quick else 20):      # long functions: > 100 basic blocks, register pressure, spills across loops
+        g = core.Gen(run.rng, max_stmts=140, max_depth=2)
+        g.long_main = True
+        progs.append(g.program())
     corpus = load_corpus()
     run.extra["corpus_programs"] = len(corpus)
     progs = corpus + progs
